@@ -12,7 +12,7 @@ import (
 func init() {
 	register(&propInfo{
 		ID: "C02",
-		Explanation: "Value-origin and path analysis of the response-routing mechanism of the WebSocket client: (R02.1) request ids are minted only by sync/atomic operations on the client's counter, pass through the id normaliser, and nothing else is stored in a request's id; (R02.2) an id-bearing request is registered in the in-flight table before it is written; (R02.3) every mailbox is a fresh channel of capacity >= 1; (R02.4) the response handler delivers to the mailbox of the entry looked up under the response's own id, with result/error/id taken from that same frame; (R02.5) delivery is single: the response handler removes the entry on every path after delivering, the failer empties the table, the accept arm answers only requests it did not register; (R02.6) frames are executed in arrival order: one executor goroutine started outside any loop, enqueue before the next read is started, synchronous dispatch down to the response / channel handlers; (R02.7) the frame decode target is a zero-valued allocation made per frame (decoding into a recycled struct would alias buffers already handed to callers and handlers).",
+		Explanation: "Value-origin and path analysis of the response-routing mechanism of the WebSocket client: (R02.1) request ids are minted only by sync/atomic operations on the client's counter, pass through the id normaliser, and nothing else is stored in a request's id; (R02.2) every id-bearing request that is accepted is registered in the in-flight table under its own id, as itself; (R02.3) every mailbox is a fresh channel of capacity >= 1; (R02.4) the response handler delivers to the mailbox of the entry looked up under the response's own id, with result/error/id taken from that same frame; (R02.5) delivery is single: the response handler removes the entry on every path after delivering, the failer empties the table, the accept arm answers only requests it did not register; (R02.6) frames are executed in arrival order: one executor goroutine started outside any loop, enqueue before the next read is started, synchronous dispatch down to the response / channel handlers; (R02.7) the frame decode target is a zero-valued allocation made per frame (decoding into a recycled struct would alias buffers already handed to callers and handlers).",
 		NotDecided: "That a given schedule completes; HTTP (one exchange per call, no shared routing state); the redundant response-id equality checks on the caller side (defensive only).",
 		Assumptions: []string{"encoding/json reuses the backing array of a pre-populated []byte/RawMessage field when decoding into it", "the connection loop is the only receiver of the request queue"},
 		Run: runC02,
@@ -50,52 +50,56 @@ func leaves(v ssa.Value, seen map[ssa.Value]bool, out *[]ssa.Value) {
 	*out = append(*out, v)
 }
 
-func (c *Ctx) registerBeforeWrite(rule string) {
-	r := c.R
-	w := c.ws()
-	arm, ok := w.Arms["requests"]
-	if !ok || arm.Body == nil || w.SendReq == nil {
-		c.und(rule, "request-accept arm", "-", "accept arm or request writer not resolved")
-		return
-	}
-	construct := fmt.Sprintf("%s: register before write", fname(r.FnLoop))
-	isRegister := func(in ssa.Instruction) bool {
-		mu, ok := in.(*ssa.MapUpdate)
-		return ok && isLoadOf(mu.Map, r.FInflight)
-	}
-	if wv := reachFromBlockF(arm.Body, func(in ssa.Instruction) bool { return isCallTo(in, w.SendReq) }, isRegister, c.assumeID(false)); wv != nil {
-		c.bad(rule, construct, c.ipos(wv), "an id-bearing request can be written before it is registered: a fast reply is dropped as 'unknown id' and the call hangs")
-		return
-	}
-	// the registered key is the request's own id and the value the request itself
-	okAll := false
-	for b := range armBlocks(arm) {
-		for _, in := range b.Instrs {
-			if mu, ok := in.(*ssa.MapUpdate); ok && isLoadOf(mu.Map, r.FInflight) {
-				okAll = true
-				if !c.fromRequestQueue(mu.Value) {
-					okAll = false
-					c.bad(rule, construct, c.ipos(mu), "the value registered is not the request just received from the queue")
-				}
-				if _, isID := loadsField(mu.Key, r.FReqID); !isID || !c.fromRequestQueue(mu.Key) {
-					okAll = false
-					c.bad(rule, construct, c.ipos(mu), "the request is not registered under its own id")
-				}
+// fromQueue: v is (a field of) the request received from the request queue in the connection loop.
+func (c *Ctx) fromQueue(v ssa.Value, fields ...*types.Var) bool {
+	return c.allOrigins(v, func(a apath) bool {
+		ex, ok := a.Root.(*ssa.Extract)
+		if !ok {
+			return false
+		}
+		sel, ok := ex.Tuple.(*ssa.Select)
+		if !ok {
+			return false
+		}
+		arms, _ := selectArms(sel)
+		for _, arm := range arms {
+			if arm.Recv == ssa.Value(ex) && c.fieldVal(arm.State.Chan, c.R.FRequests) {
+				return pathIs(a, fields...)
 			}
 		}
+		return false
+	})
+}
+
+func (c *Ctx) registerBeforeWrite(rule string) {
+	r := c.R
+	construct := fmt.Sprintf("%s: registration of accepted requests", fname(r.FnLoop))
+	n := 0
+	okAll := true
+	for _, u := range usesOfKind(c.P.uses(r.FInflight), "mapupdate") {
+		mu := u.At.(*ssa.MapUpdate)
+		n++
+		if !c.fromQueue(mu.Value) {
+			okAll = false
+			c.bad(rule, construct, c.ipos(mu), "the value registered is not the request just received from the queue")
+		}
+		if !c.fromQueue(mu.Key, r.FCreqReq, r.FReqID) {
+			okAll = false
+			c.bad(rule, construct, c.ipos(mu), "the request is not registered under its own id")
+		}
 	}
-	if okAll {
-		c.ok(rule, construct, c.ipos(arm.Body.Instrs[0]), "registration under the request's own id precedes the write on every id-bearing path")
-	} else if c.ruleN[rule] == 0 {
-		c.bad(rule, construct, c.ipos(arm.Body.Instrs[0]), "the accept arm never registers a request")
+	if n == 0 {
+		c.bad(rule, construct, c.P.pos(r.FnLoop.Pos()), "no request is ever registered in the in-flight table")
+	} else if okAll {
+		c.ok(rule, construct, c.P.pos(r.FnLoop.Pos()), "registered as itself under its own id")
 	}
 }
 
 func runC02(c *Ctx) {
 	p, r := c.P, c.R
-	w := c.ws()
+	_ = c.ws()
 	c.rule("R02.1", "ids are minted only by sync/atomic on the client's counter, normalised, and a request's id is nil or such an id")
-	c.rule("R02.2", "an id-bearing request is registered under its own id before it is written")
+	c.rule("R02.2", "an accepted id-bearing request is registered under its own id, as itself")
 	c.rule("R02.3", "every mailbox is a freshly made channel with capacity >= 1")
 	c.rule("R02.4", "the response handler delivers to the entry looked up under the response's id, with payload taken from that same frame")
 	c.rule("R02.5", "single delivery: remove after deliver; failer empties the table; the accept arm answers only unregistered requests")
@@ -208,253 +212,11 @@ func runC02(c *Ctx) {
 	// ---- R02.3
 	c.mailboxRule("R02.3")
 
-	// ---- R02.4 / R02.5 (response handler)
-	if c.needWS("R02.4", "resp", w.Resp) {
-		f := w.Resp
-		var lk *ssa.Lookup
-		for _, u := range usesOfKind(usesIn(p.uses(r.FInflight), f), "maplookup") {
-			lk = u.At.(*ssa.Lookup)
-		}
-		var send *ssa.Send
-		allInstrs(f, func(in ssa.Instruction) {
-			if s, ok := in.(*ssa.Send); ok {
-				if ch, ok := s.Chan.Type().Underlying().(*types.Chan); ok && ch.Elem() == types.Type(r.TCresp) {
-					send = s
-				}
-			}
-		})
-		construct := fmt.Sprintf("%s: delivery of a response", fname(f))
-		if lk == nil || send == nil {
-			c.bad("R02.4", construct, p.pos(f.Pos()), "the response handler does not look up the in-flight table and deliver to the entry's mailbox")
-		} else {
-			okAll := true
-			// key = ID field of the frame parameter
-			frameParam := c.frameParamOf(f)
-			keyOK := false
-			if fv, ok := lk.Index.(*ssa.Field); ok && frameParam != nil && c.isParamCopy(fv.X, frameParam) && strings.Contains(structOf(fv.X.Type()).Tag(fv.Field), `json:"id`) {
-				keyOK = true
-			}
-			if ld, ok := lk.Index.(*ssa.UnOp); ok && ld.Op == token.MUL {
-				if fa, ok := ld.X.(*ssa.FieldAddr); ok && frameParam != nil && c.isParamCopy(fa.X, frameParam) && strings.Contains(structOf(fa.X.Type()).Tag(fa.Field), `json:"id`) {
-					keyOK = true
-				}
-			}
-			if !keyOK {
-				okAll = false
-				c.bad("R02.4", construct, c.ipos(lk), "the in-flight entry is not looked up under the id of the response frame being handled")
-			}
-			// channel operand: ready field of the looked-up entry
-			chOK := false
-			var lv []ssa.Value
-			leaves(send.Chan, map[ssa.Value]bool{}, &lv)
-			for _, l := range lv {
-				if c.derivesFromLookup(l, lk) {
-					chOK = true
-				} else {
-					chOK = false
-					break
-				}
-			}
-			if !chOK {
-				okAll = false
-				c.bad("R02.4", construct, c.ipos(send), "the mailbox written to is not the one of the entry found under the response's id")
-			}
-			// payload fields from the same frame
-			if !c.payloadFromFrame(send.X, frameParam) {
-				okAll = false
-				c.bad("R02.4", construct, c.ipos(send), "the delivered result/error/id are not all taken from the response frame being handled")
-			}
-			if okAll {
-				c.ok("R02.4", construct, c.ipos(send), "lookup by frame id, mailbox of that entry, payload from the same frame")
-			}
-			// R02.5: remove after deliver
-			isDel := func(in ssa.Instruction) bool {
-				ci, ok := in.(*ssa.Call)
-				if !ok {
-					return false
-				}
-				if b, ok := ci.Call.Value.(*ssa.Builtin); ok && b.Name() == "delete" {
-					return isLoadOf(ci.Call.Args[0], r.FInflight) && sameVal(ci.Call.Args[1], lk.Index)
-				}
-				return false
-			}
-			c5 := fmt.Sprintf("%s: entry removed after delivery", fname(f))
-			if ret := mustFollowFrom(send, isDel); ret != nil {
-				c.bad("R02.5", c5, c.ipos(ret), "a path returns after delivering without removing the entry: a repeated or later frame with that id is delivered to a call that has already returned (and the one-slot mailbox eventually blocks the executor)")
-			} else {
-				c.ok("R02.5", c5, c.ipos(send), "delete of the same key on every path after the send")
-			}
-			// every path that found the entry delivers or returns via log only — paths returning between lookup and send leave the entry registered: they must not have consumed it. (error paths before send are allowed: the failer answers later)
-		}
-	}
-	// R02.5: every other delivery site must be a helper of the response handler whose call is followed by the removal
-	if w.Resp != nil {
-		var lk *ssa.Lookup
-		for _, u := range usesOfKind(usesIn(p.uses(r.FInflight), w.Resp), "maplookup") {
-			lk = u.At.(*ssa.Lookup)
-		}
-		for _, fn := range p.Funcs {
-			if pkgOf(fn) != p.Root.Pkg || fn == w.Resp || fn == w.Failer || fn == r.FnLoop {
-				continue
-			}
-			allInstrs(fn, func(in ssa.Instruction) {
-				isSend := false
-				switch x := in.(type) {
-				case *ssa.Send:
-					if ch, ok := x.Chan.Type().Underlying().(*types.Chan); ok && ch.Elem() == types.Type(r.TCresp) {
-						isSend = true
-					}
-				case *ssa.Select:
-					for _, st := range x.States {
-						if ch, ok := st.Chan.Type().Underlying().(*types.Chan); ok && st.Dir == types.SendOnly && ch.Elem() == types.Type(r.TCresp) {
-							isSend = true
-						}
-					}
-				}
-				if !isSend {
-					return
-				}
-				construct := fmt.Sprintf("%s: delivery of a completion outside the response handler", fname(fn))
-				sites := p.callers[fn]
-				if len(sites) == 0 || lk == nil {
-					c.bad("R02.5", construct, c.ipos(in), "a completion is delivered from a place that is neither the response handler, the failer nor the accept arm")
-					return
-				}
-				for _, s := range sites {
-					if s.Parent() != w.Resp {
-						c.bad("R02.5", construct, c.ipos(s), "a completion is delivered by a helper called from outside the response handler")
-						continue
-					}
-					isDel := func(x ssa.Instruction) bool {
-						ci, ok := x.(*ssa.Call)
-						if !ok {
-							return false
-						}
-						if b, ok := ci.Call.Value.(*ssa.Builtin); ok && b.Name() == "delete" {
-							return isLoadOf(ci.Call.Args[0], r.FInflight) && sameVal(ci.Call.Args[1], lk.Index)
-						}
-						return false
-					}
-					if ret := mustFollowFrom(s, isDel); ret != nil {
-						c.bad("R02.5", construct, c.ipos(ret), "after the helper delivered the completion the response handler returns without removing the entry: a repeated response is delivered again")
-					} else {
-						c.ok("R02.5", construct, c.ipos(s), "helper call followed by removal of the entry on every path")
-					}
-				}
-			})
-		}
-	}
-	// R02.5 failer part: reuse R03.4's decision
-	if w.Failer != nil {
-		construct := fmt.Sprintf("%s: table emptied after answering", fname(w.Failer))
-		var reset *ssa.Store
-		for _, u := range usesOfKind(usesIn(p.uses(r.FInflight), w.Failer), "store") {
-			reset = u.At.(*ssa.Store)
-		}
-		var rng ssa.Instruction
-		for _, u := range usesOfKind(usesIn(p.uses(r.FInflight), w.Failer), "range") {
-			rng = u.At
-		}
-		if reset == nil || rng == nil {
-			c.bad("R02.5", construct, p.pos(w.Failer.Pos()), "entries answered by the failer stay registered: the next loss or exit answers calls that have already returned")
-		} else if ret := mustFollowFrom(rng, func(in ssa.Instruction) bool { return in == ssa.Instruction(reset) }); ret != nil {
-			c.bad("R02.5", construct, c.ipos(ret), "a path returns without emptying the table")
-		} else {
-			c.ok("R02.5", construct, c.ipos(reset), "table replaced on every path")
-		}
-	}
-	// R02.5 accept arm: no answer after registration
-	if arm, ok := w.Arms["requests"]; ok && arm.Body != nil {
-		blocks := armBlocks(arm)
-		construct := fmt.Sprintf("%s: accept arm answers only unregistered requests", fname(r.FnLoop))
-		bad := false
-		for b := range blocks {
-			for _, in := range b.Instrs {
-				mu, ok := in.(*ssa.MapUpdate)
-				if !ok || !isLoadOf(mu.Map, r.FInflight) {
-					continue
-				}
-				isAnswer := func(x ssa.Instruction) bool {
-					s, ok := x.(*ssa.Send)
-					if !ok || !blocks[x.Block()] {
-						return false
-					}
-					ch, ok := s.Chan.Type().Underlying().(*types.Chan)
-					return ok && ch.Elem() == types.Type(r.TCresp)
-				}
-				leaves := func(x ssa.Instruction) bool { return !blocks[x.Block()] }
-				if wv := reachFromF(mu, isAnswer, leaves, c.assumeID(false)); wv != nil {
-					bad = true
-					c.bad("R02.5", construct, c.ipos(wv), "a request that was registered is also answered locally: its caller can receive two completions (the second blocks the loop or reaches a later call)")
-				}
-			}
-		}
-		if !bad {
-			c.ok("R02.5", construct, c.ipos(arm.Body.Instrs[0]), "no local answer reachable after registration")
-		}
-	}
+	// ---- R02.4 / R02.5: every completion delivered anywhere is classified by whose mailbox it goes to
+	c.deliveryRules("R02.4", "R02.5")
 
 	// ---- R02.6
-	if c.need("R02.6", "FN_exec", r.FnExec != nil) && c.need("R02.6", "FN_loop", r.FnLoop != nil) {
-		var spawns []*ssa.Go
-		for _, fn := range p.Funcs {
-			allInstrs(fn, func(in ssa.Instruction) {
-				if g, ok := in.(*ssa.Go); ok && p.unbound(staticCallee(g)) == r.FnExec {
-					spawns = append(spawns, g)
-				}
-			})
-		}
-		construct := fmt.Sprintf("%s: single frame executor", fname(r.FnExec))
-		switch {
-		case len(spawns) != 1:
-			c.bad("R02.6", construct, p.pos(r.FnExec.Pos()), fmt.Sprintf("the frame executor is started %d times: frames would be executed concurrently, out of arrival order", len(spawns)))
-		case inLoop(spawns[0].Block()):
-			c.bad("R02.6", construct, c.ipos(spawns[0]), "the frame executor is started inside a loop")
-		default:
-			c.ok("R02.6", construct, c.ipos(spawns[0]), "started once, outside any loop")
-		}
-		// synchronous dispatch chain
-		for _, pair := range []struct {
-			from, to *ssa.Function
-			what     string
-		}{{r.FnExec, w.FrameSwitch, "frame switch"}, {w.FrameSwitch, w.Resp, "response handler"}, {w.FrameSwitch, w.ChanVal, "channel-value handler"}, {w.FrameSwitch, w.ChanClose, "channel-close handler"}, {w.FrameSwitch, w.Cancel, "cancel handler"}, {w.FrameSwitch, w.Spawn, "call spawner"}} {
-			if pair.from == nil || pair.to == nil {
-				c.und("R02.6", "dispatch chain: "+pair.what, "-", "function role not resolved")
-				continue
-			}
-			sites := callsTo(pair.from, pair.to)
-			cons := fmt.Sprintf("%s: dispatch to the %s", fname(pair.from), pair.what)
-			if len(sites) == 0 {
-				c.bad("R02.6", cons, p.pos(pair.from.Pos()), "not dispatched directly any more")
-				continue
-			}
-			for _, s := range sites {
-				_, isCall := s.(*ssa.Call)
-				c.check(isCall, "R02.6", cons, c.ipos(s), "synchronous", "dispatched on a new goroutine: frames of one connection are no longer handled in arrival order (a channel value can overtake the response announcing its channel)")
-			}
-		}
-		// enqueue before the next read is started
-		if w.ReadFrame != nil && w.Reader != nil {
-			cons := fmt.Sprintf("%s: enqueue before starting the next read", fname(w.ReadFrame))
-			var enq ssa.Instruction
-			for _, u := range usesOfKind(usesIn(p.uses(r.FQueue), w.ReadFrame), "send", "select-send") {
-				enq = u.At
-			}
-			n := 0
-			allInstrs(w.ReadFrame, func(in ssa.Instruction) {
-				g, ok := in.(*ssa.Go)
-				if !ok || p.unbound(staticCallee(g)) != w.Reader {
-					return
-				}
-				n++
-				c.check(enq != nil && mustPrecede(w.ReadFrame, func(x ssa.Instruction) bool { return x == enq }, g), "R02.6", cons, c.ipos(g),
-					"the frame is queued before the next read starts", "the next frame can be read and queued before this one: frames are executed out of arrival order")
-			})
-			if n == 0 {
-				c.bad("R02.6", cons, p.pos(w.ReadFrame.Pos()), "the frame reader no longer restarts the socket read after queueing a frame")
-			}
-		}
-	}
+	c.arrivalOrderRule("R02.6")
 
 	// ---- R02.7
 	c.freshDecodeTarget("R02.7")
@@ -571,56 +333,318 @@ func (c *Ctx) payloadFromFrame(v ssa.Value, frame *ssa.Parameter) bool {
 	return n >= 3
 }
 
-// freshDecodeTarget: R02.7
+// freshDecodeTarget: R02.7 — inbound frames are decoded into a zero-valued struct that exists per frame.
 func (c *Ctx) freshDecodeTarget(rule string) {
-	r := c.R
-	fn := r.FnExec
-	if fn == nil || r.TFrame == nil {
+	p, r := c.P, c.R
+	if r.FnExec == nil || r.TFrame == nil {
 		c.und(rule, "frame decode target", "-", "frame executor not resolved")
 		return
 	}
 	n := 0
-	allInstrs(fn, func(in ssa.Instruction) {
+	p.coneInstrs(r.FnExec, func(in ssa.Instruction) {
 		ci, ok := in.(*ssa.Call)
 		if !ok {
 			return
 		}
 		t := decodeTarget(ci)
-		al, ok := t.(*ssa.Alloc)
-		if !ok || al.Type().(*types.Pointer).Elem() != types.Type(r.TFrame) {
+		if t == nil {
+			return
+		}
+		pt, ok := t.Type().Underlying().(*types.Pointer)
+		if !ok || pt.Elem() != types.Type(r.TFrame) {
 			return
 		}
 		n++
+		fn := in.Parent()
 		construct := fmt.Sprintf("%s: decode target of an inbound frame", fname(fn))
-		if !inLoop(al.Block()) {
-			c.bad(rule, construct, c.ipos(al), "the frame struct is allocated once and reused for every frame: its byte slices alias data already handed to callers and handler goroutines")
+		// where does the pointer come from?
+		var allocs []*ssa.Alloc
+		okRoots := true
+		for _, a := range c.origins(t) {
+			al, isAl := a.Root.(*ssa.Alloc)
+			if !isAl || len(a.Fields) != 0 {
+				okRoots = false
+				continue
+			}
+			allocs = append(allocs, al)
+		}
+		if !okRoots || len(allocs) == 0 {
+			c.bad(rule, construct, c.ipos(ci), "frames are decoded into memory that is not a local struct made for this frame (e.g. a field of the connection): its byte slices alias data already handed to callers and handler goroutines")
 			return
 		}
-		// no store into the struct between allocation and decode
-		dirty := func(x ssa.Instruction) bool {
-			st, ok := x.(*ssa.Store)
-			if !ok {
-				return false
+		for _, al := range allocs {
+			if al.Parent() == r.FnExec && !inLoop(al.Block()) {
+				c.bad(rule, construct, c.ipos(al), "the frame struct is allocated once and reused for every frame: its byte slices alias data already handed to callers and handler goroutines")
+				return
 			}
-			if st.Addr == ssa.Value(al) {
-				// zero-value store is fine
-				if k, ok := st.Val.(*ssa.Const); ok && k.Value == nil {
+			dirty := func(x ssa.Instruction) bool {
+				st, ok := x.(*ssa.Store)
+				if !ok {
 					return false
 				}
-				return true
+				if st.Addr == ssa.Value(al) {
+					if k, ok := st.Val.(*ssa.Const); ok && k.Value == nil {
+						return false
+					}
+					return true
+				}
+				if fa, ok := st.Addr.(*ssa.FieldAddr); ok && fa.X == ssa.Value(al) {
+					return !isNilConst(st.Val)
+				}
+				return false
 			}
-			if fa, ok := st.Addr.(*ssa.FieldAddr); ok && fa.X == ssa.Value(al) {
-				return !isNilConst(st.Val)
+			if al.Parent() == fn && reachFromVia(al, ci, dirty, func(x ssa.Instruction) bool { return x == ssa.Instruction(al) }) {
+				c.bad(rule, construct, c.ipos(ci), "the frame struct is pre-populated (e.g. with a recycled buffer) before decoding: encoding/json reuses that backing array, so a later frame overwrites params/results a handler or caller is still reading")
+				return
 			}
-			return false
+			if al.Parent() != fn {
+				// allocated by a caller and passed down: any non-zero store into it before the call chain reaches the decode
+				pre := false
+				allInstrsRaw(al.Parent(), func(x ssa.Instruction) {
+					if dirty(x) {
+						pre = true
+					}
+				})
+				if pre {
+					c.bad(rule, construct, c.ipos(ci), "the frame struct is pre-populated before decoding")
+					return
+				}
+			}
 		}
-		if reachFromVia(al, ci, dirty, func(x ssa.Instruction) bool { return x == ssa.Instruction(al) }) {
-			c.bad(rule, construct, c.ipos(ci), "the frame struct is pre-populated (e.g. with a recycled buffer) before decoding: encoding/json reuses that backing array, so a later frame overwrites params/results a handler or caller is still reading")
-			return
-		}
-		c.ok(rule, construct, c.ipos(ci), "zero-valued allocation inside the loop")
+		c.ok(rule, construct, c.ipos(ci), "zero-valued struct made per frame")
 	})
 	if n == 0 {
 		c.und(rule, "frame decode target", "-", "no decode of an inbound frame found in the executor")
 	}
+}
+
+func samePaths(a, b []apath) bool {
+	if len(a) == 0 || len(a) != len(b) {
+		return false
+	}
+	for _, x := range a {
+		found := false
+		for _, y := range b {
+			if x.Root == y.Root && len(x.Fields) == len(y.Fields) {
+				eq := true
+				for i := range x.Fields {
+					if x.Fields[i] != y.Fields[i] {
+						eq = false
+					}
+				}
+				if eq {
+					found = true
+				}
+			}
+		}
+		if !found {
+			return false
+		}
+	}
+	return true
+}
+
+// deliveryRules: classify every completion by the origin of the mailbox it is sent to.
+func (c *Ctx) deliveryRules(r4, r5 string) {
+	p, r := c.P, c.R
+	w := c.ws()
+	idF := respFieldByTag(r.TCresp, "id")
+	ndeliv := 0
+	for _, fn := range p.Funcs {
+		if pkgOf(fn) != p.Root.Pkg {
+			continue
+		}
+		allInstrsRaw(fn, func(in ssa.Instruction) {
+			if !c.isCompletion(in) {
+				return
+			}
+			s, ok := in.(*ssa.Send)
+			if !ok {
+				c.und(r5, fmt.Sprintf("%s: completion in a select", fname(fn)), c.ipos(in), "completion delivered through a select: not classified")
+				return
+			}
+			chans := c.origins(s.Chan)
+			var lookups []*ssa.Lookup
+			kind := ""
+			for _, a := range chans {
+				k := "other"
+				if a.last() == r.FReady {
+					switch x := a.Root.(type) {
+					case *ssa.Extract:
+						switch t := x.Tuple.(type) {
+						case *ssa.Lookup:
+							if c.fieldVal(t.X, r.FInflight) {
+								k = "response"
+								lookups = append(lookups, t)
+							}
+						case *ssa.Next:
+							k = "failer"
+						case *ssa.Select:
+							k = "accept"
+						}
+					case *ssa.Lookup:
+						if c.fieldVal(x.X, r.FInflight) {
+							k = "response"
+							lookups = append(lookups, x)
+						}
+					}
+				}
+				if kind == "" {
+					kind = k
+				} else if kind != k {
+					kind = "mixed"
+				}
+			}
+			switch kind {
+			case "accept", "failer":
+				return // decided by the accept-arm rule / the failer rule
+			case "response":
+			default:
+				c.bad(r5, fmt.Sprintf("%s: delivery of a completion", fname(fn)), c.ipos(in), "a completion is delivered to a mailbox that is neither the entry found under the response's id, nor a swept entry, nor the request just accepted")
+				return
+			}
+			ndeliv++
+			construct := fmt.Sprintf("%s: delivery of a response", fname(fn))
+			okAll := true
+			var keyPaths []apath
+			for _, lk := range lookups {
+				kp := c.origins(lk.Index)
+				if keyPaths == nil {
+					keyPaths = kp
+				} else if !samePaths(keyPaths, kp) {
+					okAll = false
+					c.bad(r4, construct, c.ipos(in), "the mailbox can come from lookups under different keys")
+				}
+			}
+			// the key is the id of an inbound frame (normalised by the executor)
+			frameID := func(a apath) bool {
+				if ex, ok := a.Root.(*ssa.Extract); ok && ex.Index == 0 {
+					if call, ok := ex.Tuple.(*ssa.Call); ok && staticCallee(call) == r.FnNorm {
+						return r.FnExec != nil && p.inCone(r.FnExec, call)
+					}
+				}
+				return a.last() != nil && r.TFrame != nil && a.last() == respFieldByTag(r.TFrame, "id")
+			}
+			for _, a := range keyPaths {
+				if !frameID(a) {
+					okAll = false
+					c.bad(r4, construct, c.ipos(in), "the in-flight entry is not looked up under the id of the response frame being handled")
+					break
+				}
+			}
+			// payload: id == the lookup key; result and error from a frame
+			if idF != nil && !samePaths(c.originsOf(s.X, idF), keyPaths) {
+				okAll = false
+				c.bad(r4, construct, c.ipos(in), "the delivered id is not the id the entry was looked up under")
+			}
+			for _, tag := range []string{"result", "error"} {
+				pf, ff := respFieldByTag(r.TCresp, tag), respFieldByTag(r.TFrame, tag)
+				if pf == nil || ff == nil {
+					continue
+				}
+				if !c.allOriginsOf(s.X, []*types.Var{pf}, func(a apath) bool { return a.last() == ff }) {
+					okAll = false
+					c.bad(r4, construct, c.ipos(in), "the delivered "+tag+" is not taken from the response frame being handled")
+				}
+			}
+			if okAll {
+				c.ok(r4, construct, c.ipos(in), "lookup by frame id, mailbox of that entry, payload from the same frame")
+			}
+			// single delivery: the entry is removed before the frame's handling ends
+			isDel := func(x ssa.Instruction) bool {
+				ci, ok := isBuiltinCall(x, "delete")
+				return ok && c.fieldVal(ci.Call.Args[0], r.FInflight) && samePaths(c.origins(ci.Call.Args[1]), keyPaths)
+			}
+			c5 := fmt.Sprintf("%s: entry removed after delivery", fname(fn))
+			if ret := mustFollowFrom(in, isDel); ret != nil {
+				c.bad(r5, c5, c.ipos(ret), "the handling of a response frame can end after delivering without removing the entry: a repeated or later frame with that id is delivered to a call that has already returned (and the one-slot mailbox eventually blocks the executor)")
+			} else {
+				c.ok(r5, c5, c.ipos(in), "delete of the same key on every path after the send")
+			}
+		})
+	}
+	if ndeliv == 0 {
+		c.bad(r4, "delivery of a response", "-", "no place delivers a response to the entry found under its id")
+	}
+	// failer part
+	if w.Failer != nil {
+		construct := fmt.Sprintf("%s: table emptied after answering", fname(w.Failer))
+		var reset *ssa.Store
+		for _, u := range usesOfKind(p.uses(r.FInflight), "store") {
+			if !c.isConstruction(u) && p.inCone(w.Failer, u.At) {
+				reset = u.At.(*ssa.Store)
+			}
+		}
+		var rng ssa.Instruction
+		for _, u := range usesOfKind(usesIn(p.uses(r.FInflight), w.Failer), "range") {
+			rng = u.At
+		}
+		if reset == nil || rng == nil {
+			c.bad(r5, construct, p.pos(w.Failer.Pos()), "entries answered by the failer stay registered: the next loss or exit answers calls that have already returned")
+		} else if ret := reachFrom(rng, isReturn, func(in ssa.Instruction) bool { return in == ssa.Instruction(reset) }); ret != nil && ret.Parent() == w.Failer {
+			c.bad(r5, construct, c.ipos(ret), "a path returns without emptying the table")
+		} else {
+			c.ok(r5, construct, c.ipos(reset), "table replaced on every path")
+		}
+	}
+	// accept arm: no local answer after registration
+	if arm, ok := w.Arms["requests"]; ok && arm.Body != nil {
+		blocks := armBlocks(arm)
+		construct := fmt.Sprintf("%s: accept arm answers only unregistered requests", fname(r.FnLoop))
+		leaves := func(x ssa.Instruction) bool { return !inRegion(blocks, x) || isReturn(x) }
+		regd := false
+		edge := c.assumeID(false)
+		// search from the arm start: is there a path register -> completion inside the arm?
+		bad := false
+		p.coneInstrs(r.FnLoop, func(in ssa.Instruction) {
+			if !c.isRegisterInflight(in) {
+				return
+			}
+			regd = true
+		})
+		s1 := newIPSearch(func(x ssa.Instruction) bool { return c.isRegisterInflight(x) }, leaves)
+		s1.edgeOK = edge
+		s1.seen[fmt.Sprintf("%p|", arm.Body)] = true
+		_ = s1
+		// two-phase: reach a completion having passed a registration
+		passed := map[ssa.Instruction]bool{}
+		var firstReg ssa.Instruction
+		srch := newIPSearch(func(x ssa.Instruction) bool {
+			if c.isRegisterInflight(x) {
+				passed[x] = true
+				firstReg = x
+			}
+			return false
+		}, leaves)
+		srch.edgeOK = edge
+		srch.seen[fmt.Sprintf("%p|", arm.Body)] = true
+		srch.scan(arm.Body, 0, nil)
+		for reg := range passed {
+			s2 := newIPSearch(func(x ssa.Instruction) bool { return c.isCompletion(x) }, leaves)
+			s2.edgeOK = edge
+			s2.up = true
+			if s2.scan(reg.Block(), instrIndex(reg)+1, nil) {
+				bad = true
+				c.bad(r5, construct, c.ipos(s2.found), "a request that was registered is also answered locally: its caller can receive two completions (the second blocks the loop or reaches a later call)")
+			}
+		}
+		_ = firstReg
+		if !bad && regd {
+			c.ok(r5, construct, c.ipos(arm.Body.Instrs[0]), "no local answer reachable after registration")
+		}
+	}
+}
+
+// allOriginsOf: every origin of v projected by fields satisfies pred.
+func (c *Ctx) allOriginsOf(v ssa.Value, fields []*types.Var, pred func(apath) bool) bool {
+	os := c.originsOf(v, fields...)
+	if len(os) == 0 {
+		return false
+	}
+	for _, o := range os {
+		if !pred(o) {
+			return false
+		}
+	}
+	return true
 }
